@@ -34,6 +34,22 @@
 (* physical body lines, i.e. every interaction of up to Budget features.   *)
 (* Terminal states are printed as JSON; vf/props/c15.py turns each into a  *)
 (* real module and compares malt's recovery with the interpreter's AST.    *)
+(*                                                                         *)
+(* Cost table (Pay): nesting context 1 each; unit other than 4 spaces 1;   *)
+(* decorator 1 (+1 call/wraps, two-line call 2); one-line def, multi-line  *)
+(* or backslash header 1 (+1 odd continuation indent); `if` block 1;       *)
+(* comment 1 (+1 odd indent, +1 trailing backslash[-blank]); blank line 1  *)
+(* (+1 white space only); backslash continuation 1 (+1 odd indent of the   *)
+(* continuation line, +1 second continuation); multi-line string 1 (+1     *)
+(* non-plain kind, +1 single-quoted, +1 backslash-newline, +1 expression   *)
+(* statement); interior string line 0 (+1 odd indent, +1 backslash);       *)
+(* closing line at column 0 +1.  Plain assignments cost nothing.           *)
+(*                                                                         *)
+(* Excluded on purpose (documented limits of the code under test / of the  *)
+(* model): indentation mixing tabs and spaces on lines that START a        *)
+(* logical line (parser.dedent_block rejects it explicitly; Python 3       *)
+(* itself raises TabError for most of it); the text inside a line is       *)
+(* fixed (small assignments, short string pieces).                         *)
 (***************************************************************************)
 EXTENDS Naturals, Sequences, TLC, Json
 
